@@ -431,7 +431,38 @@ pub fn c15(run: &Run) -> Vec<String> {
     }
     // rate limiter: between two moments at which time passed (Advance = 150 ms = refill to the cap) no more jobs
     // are handed to workers than the bucket can hold; before the first of them no more than its initial balance
-    if run.cfg.rate_limited() {
+    if run.cfg.rate_limited() && !run.cfg.factory_queueing() {
+        // worker-queued routing behind the limiter: a job the limiter lets through goes to its worker's own queue
+        // and may start much later, so starts say nothing about admission. A job the limiter holds back is
+        // reported (RateLimited) and returned at once: within a stretch of history in which no time passes, the
+        // dispatches that were not reported rate-limited passed the limiter
+        let mut cap = crate::harness::RL_INITIAL;
+        let mut through = 0usize;
+        let mut k = 0usize; // the k-th Dispatch of the history created run.jobs[k]
+        for (i, ev) in run.history.iter().enumerate() {
+            match ev {
+                Event::Advance => {
+                    cap = crate::harness::RL_MAX;
+                    through = 0;
+                }
+                Event::Dispatch(_) => {
+                    if let Some(j) = run.jobs.get(k) {
+                        let x = &f[&j.id];
+                        let held_back = x.discards.iter().any(|d| d == "RateLimited" || d == "Shutdown") || j.send_failed || j.after_drain;
+                        if !held_back {
+                            through += 1;
+                            if through > cap {
+                                bad.push(format!("job {} is the {through}th job that passed the rate limiter in a stretch in which no time passed (step {i} of {:?}): the leaky bucket holds at most {cap} tokens", j.id, run.history));
+                            }
+                        }
+                    }
+                    k += 1;
+                }
+                _ => {}
+            }
+        }
+    }
+    if run.cfg.rate_limited() && run.cfg.factory_queueing() {
         let mut cap = crate::harness::RL_INITIAL;
         let mut started = 0usize;
         for (_, e) in &run.events {
@@ -449,6 +480,8 @@ pub fn c15(run: &Run) -> Vec<String> {
                 _ => {}
             }
         }
+    }
+    if run.cfg.rate_limited() {
         for (id, x) in &f {
             let n = x.discards.iter().filter(|d| *d == "RateLimited").count();
             if n > 1 {
